@@ -24,7 +24,8 @@ from . import builders as B
 from .builders import PRE
 
 T_EXC = "InvalidArgumentTypeException"
-WITNESSES = [".^$*+?{}[]()|\\/", "a.b", "\\d+", "(?:x)|y", "[a-z]{2,}", "\n\t #", "é一\U0001f600", "a", "$", "\\", "US$", "^"]
+WITNESSES = [".^$*+?{}[]()|\\/", "a.b", "\\d+", "(?:x)|y", "[a-z]{2,}", "\n\t #", "é一\U0001f600", "a", "$", "\\", "US$", "^",
+             "the quick (brown) fox [jumps] over {the} lazy dog. $5.00? yes|no * 2 + 1 ^ 3 \\ / end", "\\" * 7 + "|" * 5, "x" * 40]
 MODULES = ["pregex.core.pre", "pregex.core.operators", "pregex.core.quantifiers", "pregex.core.groups", "pregex.core.assertions"]
 
 
@@ -212,7 +213,7 @@ def run(ctx, model):
     n_ctx = 0
     for f, pname, var in public:
         lookaround = any(k in (f.short + (f.cls.name if f.cls else "")).lower() for k in ("preceded", "enclosed", "followed"))
-        for s in ((WITNESSES[0], "a.b", "\\*", "a\\+b\\?") if lookaround else (WITNESSES[0], "a.b")):
+        for s in ((WITNESSES[0], "a.b", "\\*", "a\\+b\\?", WITNESSES[12]) if lookaround else (WITNESSES[0], "a.b", WITNESSES[12])):
             E = escape_of(model, s)
             for position in ((0, 1, 2) if var else (0,)):
                 call_str = _caller(model, f, pname, var, position, s)
@@ -242,6 +243,39 @@ def run(ctx, model):
                                   "a plain string operand does not contribute exactly its escaped text"
                                   + (" (the raw string reaches the pattern)" if raw else ""), f.node.lineno, inp=inp,
                                   detail=f"with the str: {sorted(bad)[:2]}; with Pregex(escaped): {sorted(res_p)[:2]}")
+    # ---------------- R-CTX (many string operands at once, classifier interpreted)
+    # Cls(s1, ..., sk) with k = 4..6 plain strings must emit what Cls(Pregex(s1), ..., Pregex(sk)) emits
+    variadic = [(f, p) for f, p, var in public if var and f.node.name == "__init__"]
+    groups = [["a", "-", "z", "q"], ["+", "-", "*", "/"], ["]", "^", "a", "\\", "-"], ["ab", "c.d", "e|f", "(g)", "h$", "^i"],
+              ["0", "-", "9", ".", "e"], ["x", "y", "z", "w"], [WITNESSES[12], "a", "b", "c"]]
+    for f, pname in variadic:
+        ci = f.cls
+        a = f.node.args
+        lead = [p.arg for p in a.posonlyargs + a.args if p.arg != "self"]
+        for grp in groups:
+            def with_str(it, ci=ci, grp=grp, lead=lead):
+                args = [make_operand(model, "st", "Other", True) for _ in lead] + list(grp)
+                return it.construct(ci, args)
+
+            def with_pregex(it, ci=ci, grp=grp, lead=lead):
+                args = [make_operand(model, "st", "Other", True) for _ in lead] + [it.construct(P, [x]) for x in grp]
+                return it.construct(ci, args)
+            rs = {o.text if o.kind == "return" else f"!{o.exc.name}" for o in B.run_thunk(model, with_str, real_classifier=True)}
+            rp = {o.text if o.kind == "return" else f"!{o.exc.name}" for o in B.run_thunk(model, with_pregex, real_classifier=True)}
+            inp = f"{ci.name}({', '.join(['<match>'] * len(lead) + [repr(x)[:12] for x in grp])})"
+            ctx.instance("R-CTX", key=inp, sample=f"{inp} -> {sorted(rs)[:1]}")
+            if rs != rp and not all(x.startswith("!") for x in rs | rp):
+                ctx.violation("R-CTX", f.relpath, f.short, f"parameter {pname}: several literals",
+                              "several plain string operands do not contribute exactly their escaped texts", f.node.lineno,
+                              inp=inp, detail=f"with strings: {sorted(rs)[:2]}; with Pregex(s): {sorted(rp)[:2]}")
+            for t in rs:
+                if not t.startswith("!"):
+                    from ..absdom import compiles
+                    okc, why = compiles(t)
+                    if not okc:
+                        ctx.violation("R-CTX", f.relpath, f.short, f"parameter {pname}: several literals",
+                                      "literal operands yield a pattern that re rejects", f.node.lineno, inp=inp, detail=f"{t!r}: {why}")
+
     # ---------------- R-AFFIX
     ESS = "pregex.meta.essentials"
     for cname in ("WordContains", "WordStartsWith", "WordEndsWith"):
